@@ -1,8 +1,8 @@
 #!/bin/sh
 # usage: tools/try_benign.sh <dir with patch.diff> C01 C13 ...   -> every listed check must stay silent (exit 0)
 D=$1; shift
-S=/tmp/main/repo
-[ -d $S/.git ] || { mkdir -p /tmp/main && cp -r /repo $S; }
+S=${SCRATCH:-/tmp/main}/repo
+[ -d $S/.git ] || { mkdir -p $(dirname $S) && cp -r /repo $S; }
 cd $S && git checkout -q -- . && git clean -fdq chempy >/dev/null 2>&1
 if [ "$(git -C /repo rev-parse HEAD)" != "$(git rev-parse HEAD)" ]; then rm -rf $S && cp -r /repo $S && cd $S; fi
 git apply $D/patch.diff || { echo "PATCH DOES NOT APPLY"; exit 3; }
